@@ -34,6 +34,7 @@ structure Member where
   exported : Bool
   isInt : Bool
   int : Int
+  str : String := ""   -- the string value itself for string-backed enums (constant.StringVal)
 deriving Repr, DecidableEq, Inhabited
 
 structure Comment where
